@@ -3,6 +3,7 @@ package main
 import (
 	"fmt"
 	"strings"
+	"time"
 
 	"github.com/atlassian/gostatsd/verifhooks"
 
@@ -25,7 +26,16 @@ func abbreviate(s string) string {
 // lexcase (line, strconv oracle table, observation) wrapped in KLex.
 func (lr *lexRunner) run(in input) hlib.Case {
 	line := lexgen.FromInts(in.Data)
-	o := lexgen.Lex(lr.ll, line, in.NS)
+	var o lexgen.Observation
+	done := make(chan struct{})
+	go func() { o = lexgen.Lex(lr.ll, line, in.NS); close(done) }()
+	select {
+	case <-done:
+	case <-time.After(stepTimeout):
+		// the lexer does not return: nothing can stop that goroutine, so this is the last case
+		return hlib.Case{Input: in, Obs: map[string]interface{}{"text": abbreviate(line), "result": "no return"}, Class: "lex/" + in.Class + "/wedged",
+			Monitors: []string{"lexer wedged: no return after " + stepTimeout.String(), fatalMark}}
+	}
 	if len(o.Text) > 400 {
 		o.Text = o.Text[:400] + "..."
 	}
